@@ -227,6 +227,10 @@ func TestVerif_C02_Queue(t *testing.T) {
 		saveLastCase("c02", []byte(fmt.Sprintf("%+v", plan)))
 
 		res, events, wo, ro, after, writerParked, maxInflight := c02run(t, plan)
+		if res.Frozen {
+			c.Inconclusive("virtual-clock-freeze")
+			return
+		}
 		slots := 2 << (plan.Factor - 1)
 		parkedFull := maxInflight > int64(slots)
 		for _, e := range events {
